@@ -641,9 +641,18 @@ class CollapseOracle(object):
             try:
                 before_state = mt.state(solver._termination)
                 best = tuple(float(v) for v in solver.bestSolution)
+                # what is satisfied right now (the message Solve's loop stashed, else a fresh evaluation without side effects)
+                stop_msg = getattr(solver, '__stop__', None)
+                if stop_msg is None: stop_msg = h.peek_term(solver)
             finally:
                 run.observing = was
             out = orig(disp)
+            if out and stop_msg:
+                others = [part for part in str(stop_msg).split('; ') if part and not part.startswith('Collapse')]
+                if others:
+                    # documented: a collapse is applied unless a 'stop' termination is satisfied at the same time
+                    h.violate(ID, 'collapse_applied_although_stop_satisfied', detail='Collapse() applied %r while the stop condition(s) %r '
+                              'were satisfied as well' % (sorted(out), others), cond=sorted(out)[0].split()[0])
             run.observing = True
             try:
                 oracle.note_collapse(h, out, before_state, best, mt.state(solver._termination))
